@@ -20,6 +20,11 @@ Next ==
           /\ \A c \in PthCuts(n) : Out("pth", [n |-> n], None, c, PthTotal(n), PthVerdict(n, "", c))
           /\ \A w \in Hostile : \A c \in {PthHeader - 1, PthHeader, PthTotal(n)} :
                  Out("pth", [n |-> n], [pos |-> "nodes", how |-> w, idx |-> 0], c, PthTotal(n), PthVerdict(n, w, c))
+     \* node counts around 2^16 (a count is a 32-bit integer, not a node index): the full image, cuts near the end and
+     \* inside the nodes beyond 65535
+     /\ \A n \in {65535, 65536, 70000} :
+          \A c \in {PthTotal(n), PthTotal(n) - 1, PthTotal(n) - PthNode, PthTotal(65535), PthTotal(65535) + 1} :
+              c <= PthTotal(n) => Out("pth", [n |-> n], None, c, PthTotal(n), PthVerdict(n, "", c))
   \/ /\ phase = 2 /\ phase' = 3
      /\ \A s \in SmxShapes :
           /\ \A c \in 0..SmxTotal(s) : Out("smx", s, None, c, SmxTotal(s), SmxVerdict(s, None, c))
